@@ -505,6 +505,11 @@ func genPipeline(r *rand.Rand, n int, w *bufio.Writer) {
 	stats := map[string]int{}
 	for c := 0; c < n; c++ {
 		proto := []string{"ipfix", "v9", "v5", "sflow"}[r.Intn(4)]
+		if only := os.Getenv("VERIF_PIPE_PROTO"); only != "" {
+			// a property about one protocol spends its pipeline budget on that protocol (the draw above is kept so that
+			// the rest of the case is the one the unrestricted stream would have produced)
+			proto = only
+		}
 		workers := []int{1, 2, 3, 4, 8, 16, 32, 64}[r.Intn(8)]
 		if r.Intn(4) == 0 {
 			workers = 1 + r.Intn(64)
